@@ -105,8 +105,10 @@ function rbql_sample(info) {
 
 
 class SimWriter extends rbql.RBQLOutputWriter {
-    constructor(trace, refuse_at) {
+    constructor(trace, refuse_at, latency) {
         super();
+        this.latency = latency || null;
+        this.nwrites = 0;
         this.trace = trace;
         this.rows = [];
         this.header = null;
@@ -116,6 +118,13 @@ class SimWriter extends rbql.RBQLOutputWriter {
     async write(fields) {
         this.trace.pulls_at_write.push(this.trace.pulls);
         this.events.push('write');
+        if (this.latency !== null) {
+            // a writer doing real I/O: this write settles some event-loop turns later (the engine has to wait for it)
+            let wait = this.latency[this.nwrites % this.latency.length];
+            this.nwrites += 1;
+            if (wait > 0)
+                await turns(wait);
+        }
         if (this.refuse_at !== null && this.refuse_at !== undefined && this.rows.length >= this.refuse_at)
             return false;
         this.rows.push(fields);
@@ -201,7 +210,7 @@ async function run_query(req) {
     let input_rows_ref = producer.type != 'endless' ? producer.rows.slice() : null;
     let join_rows_ref = req.join_rows ? req.join_rows.slice() : null;
     let it = new SimIterator(producer, req.header || null, 'a', trace, req.max_pulls === undefined ? null : req.max_pulls);
-    let wr = new SimWriter(trace, req.refuse_at);
+    let wr = new SimWriter(trace, req.refuse_at, req.write_latency);
     let reg = req.join_rows ? new SimRegistry(req.join_rows, req.join_header || null, trace) : null;
     let warnings = [];
     try {
